@@ -283,21 +283,83 @@ theorem commitState_keeps_data' (a1 : Alloc) (st1 : TxAlloc) (regs : List Nat) (
   have h1 : id < dataEnd1 a1 st1 := by have := dataEnd1_ge a1 st1 hsep; omega
   exact releaseOverflow_keeps_used _ _ _ id h1 hnd
 
+/-- no page in use is cut off by the new meta end marker: the meta end marker follows the data end
+    marker only if it does not lie beyond the old end of the data area -/
 theorem commitState_keeps_meta (a1 : Alloc) (st1 : TxAlloc) (regs : List Nat) (id : Nat)
-    (hov : a1.mta.endMarker ≤ a1.data.endMarker ∨ 0 < (commitState a1 st1 regs).overflowFreed)
     (hid : id < a1.mta.endMarker) (hnd : id ∉ unionIds st1.data.freed a1.data.free)
     (hnm : id ∉ unionIds st1.mta.freed a1.mta.free) : id < (commitState a1 st1 regs).metaEnd := by
-  rw [commitState_eq] at hov ⊢
-  dsimp only at hov ⊢
+  rw [commitState_eq]
+  dsimp only
   have h0 : id < a1.mta.endMarker - (ovfRel a1 st1).2 := releaseOverflow_keeps_used _ _ _ id hid hnm
   split
-  · have h1 : id < dataEnd1 a1 st1 := by
-      unfold dataEnd1
-      split
-      · exact h0
-      · rename_i hc; omega
-    exact releaseOverflow_keeps_used _ _ _ id h1 hnd
+  · rename_i hc
+    exact releaseOverflow_keeps_used _ _ _ id (by omega) hnd
   · exact h0
+
+/-- the new end markers never grow beyond the larger of the old ones, and the new meta end marker is
+    either the shrunk meta end marker or the new data end marker -/
+theorem commitState_ends (a1 : Alloc) (st1 : TxAlloc) (regs : List Nat) :
+    (commitState a1 st1 regs).metaEnd ≤ a1.mta.endMarker ∧
+    (commitState a1 st1 regs).dataEnd ≤ max a1.data.endMarker a1.mta.endMarker := by
+  rw [commitState_eq]
+  dsimp only
+  refine ⟨?_, ?_⟩
+  · split <;> omega
+  · have : dataEnd1 a1 st1 ≤ max a1.data.endMarker a1.mta.endMarker := by
+      unfold dataEnd1; split <;> omega
+    omega
+
+/-! ### `absorbOverflow` -/
+
+/-- if the data area may grow, after `absorbOverflow` its end marker lies behind every meta page -/
+theorem absorb_meta_below (a : Alloc) (M : List Nat) (hm : ∀ x ∈ a.mta.free ++ M, x < a.mta.endMarker)
+    (hg : a.maxPages = 0 ∨ a.data.endMarker < a.maxPages) :
+    ∀ x ∈ a.mta.free ++ M, x < a.absorbOverflow.data.endMarker := by
+  intro x hx
+  have := hm x hx
+  unfold Alloc.absorbOverflow
+  split
+  · exact this
+  · rename_i hc
+    have : ¬ a.data.endMarker < a.mta.endMarker := fun h => hc ⟨h, hg⟩
+    omega
+
+theorem absorb_growth (a : Alloc)
+    (hg : a.absorbOverflow.maxPages = 0 ∨ a.absorbOverflow.data.endMarker < a.absorbOverflow.maxPages) :
+    a.maxPages = 0 ∨ a.data.endMarker < a.maxPages := by
+  unfold Alloc.absorbOverflow at hg
+  split at hg
+  · rename_i hc; exact hc.2
+  · exact hg
+
+theorem absorb_data (a : Alloc) :
+    a.absorbOverflow.data.free = a.data.free ∧ a.absorbOverflow.mta = a.mta ∧
+    a.absorbOverflow.maxPages = a.maxPages ∧ a.data.endMarker ≤ a.absorbOverflow.data.endMarker := by
+  unfold Alloc.absorbOverflow
+  split
+  · rename_i h; exact ⟨rfl, rfl, rfl, by dsimp only; omega⟩
+  · exact ⟨rfl, rfl, rfl, Nat.le_refl _⟩
+
+/-- pages handed out after `absorbOverflow` come from the data free list or are fresh: beyond the
+    end marker, in neither free list and not a meta page in use -/
+theorem absorb_alloc (a : Alloc) (M : List Nat) (st : TxAlloc) (n : Nat) (a' : Alloc) (st' : TxAlloc) (ids : List Nat)
+    (hm : ∀ x ∈ a.mta.free ++ M, x < a.mta.endMarker) (hd : ∀ x ∈ a.data.free, x < a.data.endMarker)
+    (h : dataAllocRegions a.absorbOverflow st n = some (a', st', ids)) :
+    ∀ x ∈ ids, x ∈ a.data.free ∨
+      (a.absorbOverflow.data.endMarker ≤ x ∧ x ∉ a.data.free ∧ x ∉ a.mta.free ++ M) := by
+  obtain ⟨k, rest, -, -, -, hlim, -, hids, -⟩ := dataAllocRegions_spec a.absorbOverflow st n a' st' ids h
+  obtain ⟨e1, -, e3, e4⟩ := absorb_data a
+  intro x hx
+  rw [hids, List.mem_append, mem_idRange, e1] at hx
+  rcases hx with hx | hx
+  · exact Or.inl (List.mem_of_mem_take hx)
+  · right
+    have hg : a.absorbOverflow.maxPages = 0 ∨ a.absorbOverflow.data.endMarker < a.absorbOverflow.maxPages := by
+      omega
+    have hbelow := absorb_meta_below a M hm (absorb_growth a hg)
+    refine ⟨hx.1, ?_, ?_⟩
+    · intro hf; have := hd x hf; omega
+    · intro hf; have := hbelow x hf; omega
 
 /-! ### counting -/
 
